@@ -92,6 +92,28 @@ def known_signatures(prop: str) -> dict:
     return {sig: text for kind, p, sig, text in load_known() if kind == "known" and p == prop}
 
 
+# ------------------------------------------------------------------ per-run watchdog
+class RunTimeout(Exception):
+    pass
+
+
+def guarded(fn, seconds, *a, **kw):
+    """Run fn(*a, **kw) in the worker's main thread under a wall-clock alarm; a run that hangs (e.g. library code
+    iterating forever over an ill-typed argument) is reported as a harness error naming the run, never silently."""
+    import signal
+
+    def _h(signum, frame):
+        raise RunTimeout("run exceeded %ss" % seconds)
+
+    old = signal.signal(signal.SIGALRM, _h)
+    signal.setitimer(signal.ITIMER_REAL, seconds)
+    try:
+        return fn(*a, **kw)
+    finally:
+        signal.setitimer(signal.ITIMER_REAL, 0)
+        signal.signal(signal.SIGALRM, old)
+
+
 # ------------------------------------------------------------------ parallel map
 def _init_worker():
     faulthandler.enable()
